@@ -1,13 +1,24 @@
 # edited by hand; consumed by gen_manifest.py
-_NOTE = ('trusted: NumPy/SciPy (LAPACK) as oracle and as the numerics under test; tolerance 1e-9 relative unless stated in the '
-         'property module; bounded family of shapes/seeds (VERIF_SEED); assumptions listed in every evidence file')
-_TXT = ('Sidecar contracts on the real functions this property depends on (pre/postconditions, frame and freshness clauses, '
-        'contracts on private helpers installed into the module namespace), evaluated at run time against independent dense '
-        'oracles over an enumerated+seeded family; E1 (AST->VC + z3) obligations, where present for this property, are counted '
-        'separately in the evidence as obligations/discharged. Bounded stand-in: never counted as proved.')
-for _i in range(1, 21):
-    CLAIMED['C%02d' % _i] = ('other', 'sidecar contracts; run-time clause evaluation vs dense oracles (bounded)', _TXT, _NOTE)
-CLAIMED['C14'] = ('other', 'sidecar contracts; exact symbolic execution of the real methods on sympy symbols + complex-step run-time checks',
-                  _TXT + ' For C14 the real derivative methods are additionally executed symbolically (sympy) - exact in the point and the parameters for the enumerated families/indices/degrees.', _NOTE)
+_NOTE = ('trusted: z3 5.1 (soundness), the VC generator vt/e1 and its NumPy/SciPy contract table (A-numpy, A-lapack), '
+         'NumPy/SciPy (LAPACK) as oracle and as the numerics under test in the run-time part; floating point treated as real/complex '
+         'arithmetic in E1; tolerance 1e-9 relative in T3; bounded family of shapes/seeds (VERIF_SEED); assumptions listed in every evidence file')
+_E1 = ('Sidecar contracts (requires/ensures/modifies, loop invariants, ghost isometry flags) on the real functions; the structural '
+       'clauses (index/shape safety, wf, metadata equations, rank bounds, gauge flags, frame/freshness, environment definedness) are '
+       'turned into verification conditions from the real AST on every run and discharged by z3 for ALL orders, dimensions, ranks and '
+       'iterations (evidence: coverage.obligations == coverage.discharged, function list with AST hashes, canaries refuted); the value '
+       'clauses (equals the dense definition, inequalities) are evaluated at run time against independent dense oracles over an '
+       'enumerated+seeded family and are labelled bounded. Not claimed as proof: the value clauses are bounded and the E1 trusted base '
+       '(NumPy contract table, own VC generator) is assumed, so the category is other.')
+_T3 = ('Sidecar contracts (pre/postconditions, frame clauses, contracts on private helpers installed into the module namespace) '
+       'evaluated at run time against independent dense oracles over an enumerated+seeded family; no function of this property is '
+       'within reach of the E1 generator yet (listed under unverified_functions), so everything here is a bounded stand-in, never counted as proved.')
+_TECH_E1 = 'contract-based deductive verification: own AST->VC generator + z3 (structural clauses, unbounded) + run-time contracts vs dense oracles (value clauses, bounded)'
+_TECH_T3 = 'sidecar run-time contracts vs dense oracles (bounded stand-in)'
+for _i in (1, 2, 3, 4, 5, 6, 7, 11):
+    CLAIMED['C%02d' % _i] = ('other', _TECH_E1, _E1, _NOTE)
+for _i in (8, 9, 10, 12, 13, 15, 16, 17, 18, 19):
+    CLAIMED['C%02d' % _i] = ('other', _TECH_T3, _T3, _NOTE)
+CLAIMED['C14'] = ('other', 'contracts decided by exact symbolic execution of the real methods on sympy symbols (all points and parameters, enumerated families) + complex-step run-time checks',
+                  'The real __call__/partial/partial2/gradient/hessian methods are executed on sympy symbols with symbolic parameters (module names np/legendre rebound to contract shims); simplify(partial - diff(call)) == 0 is exact in the evaluation point and the parameters for every enumerated family/index/dimension/degree; B-splines and vectorised evaluation are run-time checks (bounded).', _NOTE)
 CLAIMED['C20'] = ('exploration', 'run-time contract vs dense inverse-CDF oracle with seeded uniforms (bounded)',
-                  'The sampler is compared with a dense inverse-CDF oracle for seeded uniform variates over an enumerated family of states and measured subsets; no deductive back end decides the floating-point branch, so this is exploration only.', _NOTE)
+                  'The sampler is compared with a dense inverse-CDF oracle for seeded uniform variates over an enumerated family of states and measured subsets; the sample rule is a floating-point branch on LAPACK-derived numbers which no deductive back end here decides, so this is exploration only (the algebraic ingredients diag/squeeze/transpose/@ are covered under C01/C02).', _NOTE)
